@@ -85,6 +85,7 @@ type c14Str struct {
 	RpcN    int    `json:"rpc_n"`
 	RpcB64  bool   `json:"rpc_b64"`
 	RpcW    bool   `json:"rpc_w"`
+	JsonRT  bool   `json:"json_rt"` // json.Unmarshal(json.Marshal([]interface{}{s})) == []string{s}
 	CcPeer  bool   `json:"cc_peer"`
 	CcAddr  bool   `json:"cc_addr"`
 	CcHex   bool   `json:"cc_hex"`
@@ -202,6 +203,12 @@ func c14strRow(s string) c14Str {
 	}
 	if len(parts) >= 2 && strings.Contains(strings.ToUpper(parts[1]), "W") {
 		r.RpcW = true
+	}
+	if jm, err := json.Marshal([]interface{}{s}); err == nil {
+		var back []string
+		if json.Unmarshal(jm, &back) == nil && len(back) == 1 && back[0] == s {
+			r.JsonRT = true
+		}
 	}
 	if _, err := types.IDB58Decode(s); err == nil {
 		r.CcPeer = true
